@@ -25,3 +25,5 @@ def run(ck):
     alloc.r7_result_tested(ck, P, 'C07-R18', only_units={'pixman-region16.c', 'pixman-region32.c'}, floor=8)   # a failure swallowed in the bitmap import starts a fresh rectangle list: a non-empty region holding only the later scanlines
     region.r7_19_bitmap_read_only_with_pixels(ck, P)
     region.r7_20_partial_word_read_needs_partial_word(ck, P, 'C07-R20')
+    region.r7_21_box_coordinates_computed_per_box(ck, P)
+    region.r7_22_bitmap_read_word_by_word(ck, P)
